@@ -1,6 +1,6 @@
 """C16 - DeepSearch reports exactly the matching locations.
 
-proof:           coq/theories/Search/{SearchModel,SearchSpec,SearchProofs,SearchExtract,SearchObjects}.v, Properties/C16.v
+proof:           coq/theories/Search/{SearchModel,SearchSpec,SearchProofs,SearchExtract,SearchExtractObj,SearchObjects}.v, Properties/C16.v
 correspondence:  DeepSearch(obj, item, **mode) on generated nested objects x items x modes,
                  compared IN FULL (matched_paths / matched_values in the implementation's
                  own insertion order, with values at verbose_level 2, the `unprocessed` list, or `raise` for a
@@ -11,6 +11,10 @@ correspondence:  DeepSearch(obj, item, **mode) on generated nested objects x ite
                  instances (__dict__, __slots__, class attributes, bound methods) and objects whose attributes cannot be
                  read (`unprocessed`) run as the extension stream "Obj" (core.Ctx.extension: same model and theorems,
                  recorded in the evidence file, never a violation: the property's text does not speak about them).
+                 Number-like leaves outside the half-integers (every float, Decimal; dates in the Obj stream) enter the model
+                 with their exact text str(obj); invalid regular expressions give the third outcome `reerror`; cyclic
+                 objects (a list / dict / instance holding itself or an ancestor) run as extension stream "Cyclic" with
+                 atom items: the model gets the tree with XRef at the back references.
 grep front end:  ONE grep(item, **options) instance used with | two or three times (same / different objects);
                  every use must equal DeepSearch(obj, item, **options) and the model (a pure function).
 direct oracle:   an independent reference search written from the documentation (enumerate
@@ -31,6 +35,7 @@ import itertools
 import logging
 import pickle
 import re
+import reprlib
 from collections import namedtuple
 from decimal import Decimal
 
@@ -52,17 +57,20 @@ TRUSTED = ["regular expressions (the compiled item and exclude_regex_paths), str
            "sends Python's answer for every str of the case on which it differs from the ASCII rule; bytes.lower() is the ASCII rule",
            "the attribute list of an instance ([(n, getattr(obj, n)) for n in dir(obj) if not dunder]) is an input of the model; the "
            "harness computes it from the class definitions of its own test classes (sorted names), not with dir()",
-           "ip ranges, datetimes, Decimal, numpy, user classes with __eq__ / __iter__ / __getattr__ are outside the universe; cyclic "
-           "objects are outside the model (parents_ids: the model is a tree; shared sub-objects are unfolded)"]
-ASSUMPTIONS = ["floats are half-integers of small magnitude (repr without exponent); no nan/inf/-0.0",
+           "str(obj) of a float outside the half-integers / Decimal / date / datetime / timedelta and the universe number it is == to are "
+           "inputs of the model computed by Python; re_ok (re.compile accepts the lower-cased item) is an oracle",
+           "ip ranges, numpy, user classes with __eq__ / __iter__ / __getattr__ / sub-classes are outside the universe; cyclic objects "
+           "are modelled for atom items only (XRef = a child that is one of its own ancestors); shared sub-objects are unfolded"]
+ASSUMPTIONS = ["floats as dictionary keys / set members / ITEMS are half-integers of small magnitude; as searched leaves any float",
                "the item is a value of the shared universe (atom or plain container) or a pre-compiled pattern",
-               "the searched object is tree shaped (no container reachable from itself)"]
+               "container items are searched in tree shaped objects only (cyclic objects: atom items)"]
 
 # ---------------------------------------------------------------------------
 # class instances, named tuples, objects whose attributes cannot be read (Coq: XObj / XNamed / XOpaque)
 # (no non-dunder helper methods: dir() would list them and the search would report them)
 # ---------------------------------------------------------------------------
 
+@reprlib.recursive_repr()
 def _inst_repr(self):
     return "%s(**%r)" % (type(self).__name__, _inst_state(self))
 
@@ -167,6 +175,54 @@ def xnum_coq(v):
     return "(XNum %s %s %s)" % (ty, "None" if val is None else "(Some %s)" % V.atom_to_coq(val), core.coq_pystr(str(v)))
 
 
+# ---------------------------------------------------------------------------
+# cyclic objects: an edge parent -> child is a BACK reference when the child is one of the parent's ancestors (or the
+# parent itself) on the path from the searched root.  BACK holds those edges for the object of the current case
+# (Coq: XRef); the model, the canonical forms and the reference search stop there.
+# ---------------------------------------------------------------------------
+BACK = set()
+
+
+class _Ref:
+    def __repr__(self):
+        return "<back reference>"
+
+
+REF = _Ref()
+
+
+def kids(v):
+    """[(kind, key, child)] of a container / instance as the search enumerates them"""
+    if is_opaque(v) or is_xnum(v) or v is REF:
+        return []
+    if has_attrs(v):
+        return [("a", n, x) for n, x in attr_items(v)]
+    if isinstance(v, dict):
+        return [("k", k, x) for k, x in v.items()]
+    if isinstance(v, (list, tuple, set, frozenset)):
+        return [("i", i, x) for i, x in enumerate(v)]
+    return []
+
+
+def kid(v, kind, key, x):
+    return REF if BACK and (id(v), kind, key) in BACK else x
+
+
+def find_back_edges(obj):
+    out = set()
+
+    def walk(v, anc):
+        if isinstance(v, (list, dict, tuple)) or is_inst(v):
+            anc = anc + (id(v),)
+            for kind, key, x in kids(v):
+                if id(x) in anc and (isinstance(x, (list, dict, tuple)) or is_inst(x)):
+                    out.add((id(v), kind, key))
+                else:
+                    walk(x, anc)
+    walk(obj, ())
+    return out
+
+
 def is_named(v):
     return isinstance(v, tuple) and hasattr(type(v), "_fields")
 
@@ -208,19 +264,21 @@ def is_seq(v):
 
 def xcoq(v):
     """Coq term of type xvalue"""
+    if v is REF:
+        return "XRef"
     if is_xnum(v):
         return xnum_coq(v)
     if is_opaque(v):
         return "(XOpaque %s)" % core.coq_pystr(type(v).__name__)
     if has_attrs(v):
         return "(%s %s [%s])" % ("XNamed" if is_named(v) else "XObj", core.coq_pystr("method" if is_method(v) else type(v).__name__),
-                                 "; ".join("(%s, %s)" % (core.coq_pystr(n), xcoq(x)) for n, x in attr_items(v)))
+                                 "; ".join("(%s, %s)" % (core.coq_pystr(n), xcoq(kid(v, "a", n, x))) for n, x in attr_items(v)))
     if isinstance(v, list):
-        return "(XList [%s])" % "; ".join(xcoq(x) for x in v)
+        return "(XList [%s])" % "; ".join(xcoq(kid(v, "i", i, x)) for i, x in enumerate(v))
     if isinstance(v, tuple):
-        return "(XTuple [%s])" % "; ".join(xcoq(x) for x in v)
+        return "(XTuple [%s])" % "; ".join(xcoq(kid(v, "i", i, x)) for i, x in enumerate(v))
     if isinstance(v, dict):
-        return "(XDict [%s])" % "; ".join("(%s, %s)" % (V.atom_to_coq(k), xcoq(x)) for k, x in v.items())
+        return "(XDict [%s])" % "; ".join("(%s, %s)" % (V.atom_to_coq(k), xcoq(kid(v, "k", k, x))) for k, x in v.items())
     if isinstance(v, frozenset):
         return "(XFrozen [%s])" % "; ".join(V.atom_to_coq(x) for x in v)
     if isinstance(v, set):
@@ -232,18 +290,20 @@ def xcanon(v, sort=False):
     """mirrors Coq's sx_xvalue (sort=True: dict / set order forgotten, for comparisons)"""
     if v is METHOD or is_method(v):
         return ["O", "method", []]
+    if v is REF:
+        return ["R"]
     if is_xnum(v):
         return ["X", str(v)]
     if is_opaque(v):
         return ["U", type(v).__name__] + ([sorted(([n, xcanon(x, True)] for n, x in _inst_state(v).items()), key=repr)] if sort else [])
     if has_attrs(v):
-        return ["N" if is_named(v) else "O", type(v).__name__, [[n, xcanon(x, sort)] for n, x in attr_items(v)]]
+        return ["N" if is_named(v) else "O", type(v).__name__, [[n, xcanon(kid(v, "a", n, x), sort)] for n, x in attr_items(v)]]
     if isinstance(v, list):
-        return ["L", [xcanon(x, sort) for x in v]]
+        return ["L", [xcanon(kid(v, "i", i, x), sort) for i, x in enumerate(v)]]
     if isinstance(v, tuple):
-        return ["T", [xcanon(x, sort) for x in v]]
+        return ["T", [xcanon(kid(v, "i", i, x), sort) for i, x in enumerate(v)]]
     if isinstance(v, dict):
-        items = [[V.canon_atom(k), xcanon(x, sort)] for k, x in v.items()]
+        items = [[V.canon_atom(k), xcanon(kid(v, "k", k, x), sort)] for k, x in v.items()]
         return ["D", sorted(items, key=repr) if sort else items]
     if isinstance(v, (set, frozenset)):
         items = [V.canon_atom(x) for x in v]
@@ -251,20 +311,23 @@ def xcanon(v, sort=False):
     return V.canon_atom(v)
 
 
-def xstate(v):
-    """everything the object holds (unreadable objects and dunder attributes included): the `object not modified` check"""
+def xstate(v, anc=()):
+    """everything the object holds (unreadable objects and dunder attributes included; cut where a container holds one of
+    its own ancestors): the `object not modified` check"""
     if is_method(v):
         return "method"
     if is_xnum(v):
         return ["X", repr(v)]
+    if id(v) in anc:
+        return "R"
     if isinstance(v, (A, B, M, S, E)):
-        return [type(v).__name__, sorted(([n, xstate(x)] for n, x in _inst_state(v).items()), key=repr)]
+        return [type(v).__name__, sorted(([n, xstate(x, anc + (id(v),))] for n, x in _inst_state(v).items()), key=repr)]
     if is_named(v):
-        return ["N", type(v).__name__, [xstate(x) for x in v]]
+        return ["N", type(v).__name__, [xstate(x, anc + (id(v),)) for x in v]]
     if isinstance(v, (list, tuple)):
-        return [type(v).__name__, [xstate(x) for x in v]]
+        return [type(v).__name__, [xstate(x, anc + (id(v),)) for x in v]]
     if isinstance(v, dict):
-        return ["D", [[V.canon_atom(k), xstate(x)] for k, x in v.items()]]
+        return ["D", [[V.canon_atom(k), xstate(x, anc + (id(v),))] for k, x in v.items()]]
     return V.canon_sorted(v)
 
 
@@ -349,17 +412,8 @@ def locations(obj):
     def walk(v, steps, chain):
         chain = chain + [(steps, v)]
         out.append((steps, v, chain))
-        if is_opaque(v):
-            return                       # nothing is a location below an object whose attributes cannot be read
-        if has_attrs(v):
-            for n, x in attr_items(v):
-                walk(x, steps + (("a", n),), chain)
-        elif isinstance(v, dict):
-            for k, x in v.items():
-                walk(x, steps + (("k", k),), chain)
-        elif isinstance(v, (list, tuple, set, frozenset)):
-            for i, x in enumerate(v):
-                walk(x, steps + (("i", i),), chain)
+        for kind, key, x in kids(v):     # (nothing below an unreadable object, a number-like leaf, a back reference)
+            walk(kid(v, kind, key, x), steps + ((kind, key),), chain)
     walk(obj, (), [])
     return out
 
@@ -486,6 +540,8 @@ def ref_search(obj, item, kw, emulate=()):
         return isinstance(item, CONTAINERS) and isinstance(w, CONTAINERS) and bool(steps) and steps[-1][0] == "i" and w == item
     try:
         for steps, v, chain in locations(obj):
+            if v is REF:        # the object has been / is being searched at its first occurrence on this path
+                continue
             if any(link_excluded(s, w) for s, w in chain[:-1]):
                 continue
             if "K16h" in E and any(shortcut_hit(s, w) for s, w in chain[:-1]):
@@ -647,6 +703,42 @@ def gen_obj(rng, depth, width, with_bytes, with_objs=False):
     return set(ks) if k == "S" else frozenset(ks)
 
 
+def make_cyclic(rng, obj):
+    """A copy of obj in which a list / dict / instance holds a reference to itself or to one of its ancestors (one or two such
+    back references); (copy, False) when obj has no such container."""
+    obj = copy.deepcopy(obj)
+    nodes = []
+
+    def walk(v, anc):
+        if isinstance(v, (list, dict)) or (is_inst(v) and not isinstance(v, S)):
+            anc = anc + [v]
+            nodes.append((v, anc))
+        if is_method(v) or is_opaque(v):
+            return
+        if isinstance(v, (A, B, M, S)):
+            for x in _inst_state(v).values():
+                walk(x, anc)
+        elif isinstance(v, dict):
+            for x in v.values():
+                walk(x, anc)
+        elif isinstance(v, (list, tuple)):
+            for x in v:
+                walk(x, anc)
+    walk(obj, [])
+    if not nodes:
+        return obj, False
+    for _ in range(rng.choice([1, 1, 2])):
+        host, anc = rng.choice(nodes)
+        target = rng.choice(anc)
+        if isinstance(host, list):
+            host.insert(rng.randint(0, len(host)), target)
+        elif isinstance(host, dict):
+            host[rng.choice(["cyc", "a", "self", 0])] = target
+        else:
+            setattr(host, rng.choice(["cyc", "a", "parent"]), target)
+    return obj, True
+
+
 def share_x(rng, obj):
     """A copy of obj in which ONE container (list / dict / instance) occurs, as the same object, at a second position
     (not below or above the first); (copy, False) when there is no such pair.  The search must treat it as the tree."""
@@ -755,8 +847,8 @@ def gen_item(rng, obj, locs, use_regexp):
                 return re.compile(rng.choice([b"a", b"A.", b"\\d"]), rng.choice([0, re.I]))
             return re.compile(rng.choice(PATTERNS + ["ab", "a b", "^root"]), rng.choice([0, 0, re.I, re.I | re.S, re.X]))
         return rng.choice(PATTERNS)
-    conts = [tuple(v) if is_named(v) else v for _, v, _ in locs[1:] if isinstance(v, CONTAINERS)]
-    conts = [v for v in conts if is_plain(v)]
+    conts = [] if BACK else [tuple(v) if is_named(v) else v for _, v, _ in locs[1:] if isinstance(v, CONTAINERS)]
+    conts = [v for v in conts if is_plain(v)]       # (no container items for cyclic objects)
     if r < 0.14 and conts:       # a container item: a sub-container of the object (a named tuple as the tuple of its fields),
         v = copy.deepcopy(rng.choice(conts))    # a == variant of it, or an absent one
         q = rng.random()
@@ -1118,6 +1210,15 @@ def full_cfg(part):
 
 def do_case(ctx, obj, item, cfg, cases, tag):
     obj = copy.deepcopy(obj)      # (set iteration order may change in a copy: everything below uses this one object)
+    BACK.clear()
+    BACK.update(find_back_edges(obj))
+    try:
+        do_case_(ctx, obj, item, cfg, cases, tag)
+    finally:
+        BACK.clear()
+
+
+def do_case_(ctx, obj, item, cfg, cases, tag):
     locs = locations(obj)
     before = xstate(obj)
     res = run_impl(obj, item, kwargs_of(cfg))
@@ -1133,6 +1234,8 @@ def do_case(ctx, obj, item, cfg, cases, tag):
         ctx.count("result:unprocessed_nonempty")
     if any(is_xnum(v) for _, v, _ in locs):
         ctx.count("object:with_number_like_leaf")
+    if BACK:
+        ctx.count("object:cyclic")
     kinds = set("instance" if is_inst(v) else "named_tuple" if is_named(v) else "unreadable" if is_opaque(v) else
                 "method" if is_method(v) else None for _, v, _ in locs) - {None}
     ctx.count("object:" + ("+".join(sorted(kinds)) or "plain"))
@@ -1207,6 +1310,45 @@ def random_cases(ctx, n, with_objs=False, name="search_random", tag="random"):
                 ctx.sample({"obj": repr(obj), "item": repr(item), "options": fmt_kw(cfg)})
             made += 1
     ctx.coq_cases(name, HEADER, cases, shard=250, label=tag)
+
+
+def cyclic_cases(ctx, n):
+    """objects that hold themselves / an ancestor (lists, dicts, instances), atom items"""
+    rng = ctx.rng
+    cases = []
+    lst = [1, "x"]
+    lst.append(lst)
+    d = {"k": "x", "l": ["x"]}
+    d["self"] = d
+    d["l"].append(d)
+    a = A(a=1, b=["a"])
+    a.me = a
+    a.b.append(a)
+    t = {"t": (1, [2])}
+    t["t"][1].append(t)
+    for obj, item in [(lst, "x"), (lst, 1), (lst, "2"), (d, "x"), (d, "self"), (d, "l"), (a, "a"), (a, "me"), (a, 1), (t, 2), (t, "t")]:
+        for part in ({}, {"verbose_level": 1}, {"exclude_types": ["list"]}, {"exclude_paths": ["root['l']", "root.b", "root[2]"]}):
+            do_case(ctx, obj, item, full_cfg(part), cases, "cyclic-example")
+    made = 0
+    while made < n:
+        obj = gen_obj(rng, rng.choice([2, 3, 3, 4]), rng.choice([2, 3]), False, rng.random() < 0.4)
+        obj, ok = make_cyclic(rng, obj)
+        if not ok:
+            continue
+        for _ in range(rng.choice([2, 3])):
+            BACK.clear()
+            BACK.update(find_back_edges(obj))
+            try:
+                locs = locations(obj)
+                cfg = gen_cfg(rng, locs)
+                item = gen_item(rng, obj, locs, cfg["use_regexp"])
+            finally:
+                BACK.clear()
+            if isinstance(item, CONTAINERS):       # cyclic objects are modelled for atom items
+                continue
+            do_case(ctx, obj, item, cfg, cases, "random-cyclic")
+            made += 1
+    ctx.coq_cases("search_cyclic", HEADER, cases, shard=250, label="cyclic_objects")
 
 
 def universe_cases(ctx, limit):
@@ -1435,6 +1577,9 @@ def run(ctx):
         object_examples(ctx)
         random_cases(ctx, 6000 if ctx.thorough else 1000, with_objs=True, name="search_objects", tag="random-objects")
         grep_reuse(ctx, 300 if ctx.thorough else 60, with_objs=True)
+    # extension: cyclic objects (a container that holds itself or an ancestor: the parents_ids guard), atom items
+    with ctx.extension("Cyclic"):
+        cyclic_cases(ctx, 1500 if ctx.thorough else 250)
 
 
 def _eval(text):
